@@ -55,7 +55,8 @@ def install():
         names = sd.network.variable_names()
         _records.append({"mode": "loop1" if seeds_only else "loop0", "bn": sd.network, "space": space, "motifs": motifs,
                          "cands": cands, "seeds": [dict(s) for s in r[0]],
-                         "sets": None if r[1] is None else [_states_of(sd, names, v) for v in r[1]], "node": node_id})
+                         "sets": None if r[1] is None else [_states_of(sd, names, v) for v in r[1]], "node": node_id,
+                         "skipped": bool(sd.node_data(node_id)["skipped"])})
         return r
 
     def fb(sd, node_id):
@@ -77,7 +78,8 @@ def install():
             cands = d["attractor_candidates"]
             if cands is not None:
                 _records.append({"mode": "node", "bn": self.network, "space": dict(d["space"]), "motifs": _motifs(self, node_id),
-                                 "cands": [dict(c) for c in cands], "seeds": [dict(s) for s in r], "sets": "skip", "node": node_id})
+                                 "cands": [dict(c) for c in cands], "seeds": [dict(s) for s in r], "sets": "skip", "node": node_id,
+                                 "skipped": bool(d["skipped"])})
         return r
 
     sdm.compute_attractors_symbolic = sym
@@ -96,11 +98,11 @@ def begin():
 
 
 def finish():
-    """-> (diffs, tags, nontrivial): run the model on the recorded calls"""
+    """-> (diffs, tags, nontrivial, fails): run the model on the recorded calls"""
     _active[0] = False
     recs = list(_records)
     del _records[:]
-    diffs, tags = [], set()
+    diffs, tags, fails = [], set(), []
     nontrivial = False
     by_net = {}
     for r in recs:
@@ -127,10 +129,17 @@ def finish():
                 tags.add("symloop:several-candidates")
                 nontrivial = True
             try:
-                mseeds, msets = out.split(" | ")
+                mseeds, msets, hyp = out.split(" | ")
             except ValueError:
                 diffs.append({"stream": STREAM, "at": f"node {r['node']}", "impl": "-", "model": out[:200]})
                 continue
+            tags.add("symloop:hypotheses-hold" if hyp == "hyp=1" else "symloop:hypotheses-fail" + (":skip-node" if r.get("skipped") else ""))
+            if hyp != "hyp=1" and not r.get("skipped") and r["mode"] != "loop0":
+                # ordinary node, candidates -> seeds: the hypotheses of symbolicSeeds_spec (distinct candidates inside the node,
+                # outside the motifs, covering every own attractor) must hold; then the model's answer is exact (symbolicSeeds_checked)
+                fails.append({"kind": "candidates-violate-loop-hypotheses", "sig": {"mode": r["mode"]},
+                              "detail": f"node {r['node']} space {ni.sp(r['space'])} candidates " + " ".join(ni.st(c) for c in r["cands"])[:200]
+                                        + " motifs " + " ".join(ni.sp(m) for m in r["motifs"])[:120]})
             iseeds = ",".join(ni.st(s) if set(s.keys()) == set(ni.names) else "partial" for s in r["seeds"])
             if iseeds != mseeds:
                 diffs.append({"stream": STREAM, "at": f"node {r['node']} space {ni.sp(r['space'])} mode {r['mode']} candidates "
@@ -143,4 +152,4 @@ def finish():
             if isets != msets:
                 diffs.append({"stream": STREAM, "at": f"node {r['node']} space {ni.sp(r['space'])} mode {r['mode']} (sets)",
                               "impl": isets[:300], "model": msets[:300]})
-    return diffs, tags, nontrivial
+    return diffs, tags, nontrivial, fails
